@@ -8,7 +8,7 @@ WIDTH = 24
 
 KNOWN = ["batch_repeat", "batch_shape", "block_dim", "covar_func", "device", "diag_shape", "dim", "dtype", "m",
          "num_nonbatch_dimensions", "num_outputs_per_input", "output_device", "preconditioner_override", "upper",
-         "validate_args", "sizes", "tensor", "inv_perm", "perm"]
+         "validate_args", "alpha", "zeta", "square", "shift", "extra"]
 
 
 def enc(name):
